@@ -464,7 +464,7 @@ const ambientPerLL = 4 * 5
 
 type layout struct {
 	exh                                                     *exhTable
-	probeStart, varStart, ambStart, valStart, trcStart, rnd int
+	probeStart, varStart, ambStart, valStart, trcStart, upStart, rnd int
 	total                                                   int
 }
 
@@ -486,7 +486,8 @@ func lamLayout(tier string) *layout {
 	ly.ambStart = ly.varStart + nVariantProbes()
 	ly.valStart = ly.ambStart + nShapes*ambientPerLL
 	ly.trcStart = ly.valStart + (nShapes+nVariants*len(variantBases))*valuePerLL
-	ly.rnd = ly.trcStart + nShapes*tracedPerLL
+	ly.upStart = ly.trcStart + nShapes*tracedPerLL
+	ly.rnd = ly.upStart + nShapes*upperPerLL
 	ly.total = ly.rnd + nrand
 	layouts[tier] = ly
 	return ly
@@ -548,7 +549,14 @@ func genLam(r *rand.Rand, i int, tier string) Case {
 			c.Amb = ambModes[(k/valuePerLL/5)%len(ambModes)]
 		}
 		c.Block = "value-probe"
-	case i < ly.rnd:
+	case ly.upStart <= i && i < ly.rnd:
+		k := i - ly.upStart
+		c.LL = shape(k / upperPerLL)
+		sub := k % upperPerLL
+		c.Upper = upperModes[sub/3]
+		c.Args = probeVector(c.LL, nposChoices(c.LL)[sub%3%2], []int{1, 2, 0}[sub%3])
+		c.Block = "letter-case"
+	case i < ly.upStart:
 		k := i - ly.trcStart
 		c.LL = traced(shape(k / tracedPerLL))
 		sub := k % tracedPerLL
@@ -575,10 +583,54 @@ func genLam(r *rand.Rand, i int, tier string) Case {
 		if r.IntN(4) == 0 {
 			c.Amb = fw.Pick(r, ambModes)
 		}
+		if r.IntN(16) == 0 {
+			c.Upper = fw.Pick(r, upperModes)
+		}
 		c.Block = "random"
 	}
 	c.Split = r.IntN(3)
 	return c
+}
+
+// letter-case relation: slip's symbols are not case sensitive (the reader keeps the
+// spelling, every lookup folds it), so writing the parameter names in upper case at
+// one kind of site must not change anything a call does.
+//
+//	decl - in the lambda list only    kw   - in the keyword arguments only
+//	body - in the (list ...) of the body only    bare - the body ends in the first parameter as a bare upper-case symbol
+var upperModes = []string{"decl", "kw", "body", "bare"}
+
+// letter-case probes per lambda list: every mode x 3 vectors (required
+// arguments + every key in order; all positionals + every key reversed;
+// required arguments only).
+const upperPerLL = 4 * 3
+
+// upperNames rewrites every occurrence of a parameter name in text (a whole
+// word that is not part of a longer symbol such as c04-init or &key).
+func upperNames(text string, names []string) string {
+	is := map[string]bool{}
+	for _, n := range names {
+		is[n] = true
+	}
+	var b strings.Builder
+	for i := 0; i < len(text); {
+		j := i
+		for j < len(text) && (text[j] == '-' || text[j] == '&' || text[j] == ':' || 'a' <= text[j] && text[j] <= 'z' || '0' <= text[j] && text[j] <= '9') {
+			j++
+		}
+		if j == i {
+			b.WriteByte(text[i])
+			i++
+			continue
+		}
+		if w := text[i:j]; is[w] {
+			b.WriteString(strings.ToUpper(w))
+		} else {
+			b.WriteString(w)
+		}
+		i = j
+	}
+	return b.String()
 }
 
 // valueToken draws a supplied value: mostly an integer, sometimes nil, t or
@@ -749,9 +801,32 @@ func program(c *Case, route, fname string) string {
 		body = "(" + markName + ") (list)"
 	}
 	ll := c.LL.Text()
+	switch c.Upper {
+	case "decl":
+		ll = upperNames(ll, names)
+	case "body":
+		body = upperNames(body, names)
+	case "bare":
+		if 0 < len(names) {
+			body = "(" + markName + ") " + strings.ToUpper(names[0])
+		}
+	case "bare-lower":
+		if 0 < len(names) {
+			body = "(" + markName + ") " + names[0]
+		}
+	}
 	lam := "(lambda " + ll + " " + body + ")"
 	defun := "(defun " + fname + " " + ll + " " + body + ")"
 	args := strings.Join(c.Args, " ")
+	if c.Upper == "kw" {
+		up := make([]string, len(c.Args))
+		for i, a := range c.Args {
+			if up[i] = a; strings.HasPrefix(a, ":") {
+				up[i] = strings.ToUpper(a)
+			}
+		}
+		args = strings.Join(up, " ")
+	}
 	sp := func(s string) string {
 		if s == "" {
 			return ""
@@ -827,6 +902,88 @@ func program(c *Case, route, fname string) string {
 
 const callerName = "c04caller"
 
+// runRoute evaluates the program of a case through one route in a fresh scope
+// and renders what it did: the value or the condition class, and the trace.
+func runRoute(c *Case, route string) (string, string) {
+	names, _ := c.LL.Names()
+	fname := "c04fn"
+	src := program(c, route, fname)
+	scope := slip.NewScope()
+	callTrace = callTrace[:0]
+	var (
+		out slip.Object
+		err *sl.Err
+	)
+	if route == "compiled" {
+		out, err = sl.EvalCompiled(scope, src)
+	} else {
+		out, err = sl.Eval(scope, src)
+	}
+	trace := strings.Join(callTrace, ",")
+	if route == "defun" || route == "compiled" || route == "symcall" {
+		slip.UserPkg.Undefine(fname)
+	}
+	switch c.Amb {
+	case "caller":
+		slip.UserPkg.Undefine(callerName)
+	case "global":
+		for _, n := range names {
+			_ = sl.Catch(func() { slip.UserPkg.Remove(n) })
+		}
+	}
+	sl.Reset()
+	if err != nil {
+		cls := "condition"
+		if 0 < len(err.Chain) {
+			cls += " " + err.Chain[0]
+		}
+		if err.Internal {
+			cls += " (internal fault: " + err.Msg + ")"
+		}
+		return src, cls + " trace " + trace
+	}
+	return src, sl.Show(out) + " trace " + trace
+}
+
+// execUpper is the letter-case relation monitor: the text with the parameter
+// names in upper case at one kind of site must do exactly what the all-lower-
+// case text does, through every route. The lower-case text itself is judged
+// against the reference binder by the other blocks.
+func execUpper(x *fw.Ctx, c Case) {
+	x.Cover("A:block:" + c.Block)
+	x.Cover("A:letter-case:" + c.Upper)
+	names, _ := c.LL.Names()
+	if len(names) == 0 || c.Upper == "kw" && !func() bool {
+		for _, a := range c.Args {
+			if strings.HasPrefix(a, ":") {
+				return true
+			}
+		}
+		return false
+	}() {
+		x.Trivial()
+		return
+	}
+	lower := c
+	lower.Upper = ""
+	if c.Upper == "bare" {
+		lower.Upper = "bare-lower"
+	}
+	obs := map[string]any{"lambda-list": c.LL.Text(), "args": c.Args, "upper": c.Upper}
+	x.Observe(obs)
+	for _, route := range routes {
+		_, want := runRoute(&lower, route)
+		src, got := runRoute(&c, route)
+		x.Cover("A:route:" + route)
+		x.Cover("A:letter-case-pairs")
+		obs[route] = got
+		if got != want {
+			x.Fail("A upper-case="+c.Upper, "%s => %s, the same text with the names in lower case => %s (symbols are not case sensitive)", src, got, want)
+			return
+		}
+	}
+}
+
 // situation names, for the signature, the construct a wrongly bound
 // parameter belongs to.
 func situation(c *Case, res *ref.Result, name, kind string) string {
@@ -871,6 +1028,10 @@ func outerOf(c *Case, route string) map[string]string {
 }
 
 func execLam(x *fw.Ctx, c Case) {
+	if c.Upper != "" {
+		execUpper(x, c)
+		return
+	}
 	l := c.LL
 	names, kinds := l.Names()
 	first := ref.Bind(l, c.Args, nil)
